@@ -12,7 +12,8 @@
 (*   - break/continue only inside a loop body, and never leaving a finally *)
 (*     block (PEP 765 / documented limit of C01): a loop nested in a       *)
 (*     finally block may use them;                                         *)
-(*   - return/raise nowhere inside a finally block, however deeply nested; *)
+(*   - return nowhere inside a finally block, however deeply nested (an    *)
+(*     explicit raise there is ordinary Python and in the class);          *)
 (*   - LoopElse = TRUE adds for/while-else (class C05 only);               *)
 (*   - nothing follows a jump in its block (dead code is legal Python but  *)
 (*     adds no behaviour).                                                 *)
@@ -54,9 +55,10 @@ Compound(h) ==
   \cup (IF Funcs /\ ~h.fn /\ h.d <= 1 THEN
         Named("def", <<Tk("def"), Hole(h.d + 1, FALSE, FALSE, MaxLen, TRUE), Tk("end"), Tk(IF h.fin THEN "callnr" ELSE "call")>>) ELSE {})
 \* lp is reset on entering a finally block, so inside one it means "a loop that lies inside this finally block":
-\* break/continue then stay inside the finally block (legal, in the class); return/raise would leave it.
+\* break/continue then stay inside the finally block (legal, in the class); return would leave it.
 Jumps(h) == (IF h.lp THEN Named("break", <<Tk("break")>>) \cup Named("continue", <<Tk("continue")>>) ELSE {})
-            \cup (IF ~h.fin THEN Named("return", <<Tk("return")>>) \cup Named("raise", <<Tk("raise")>>) ELSE {})
+            \cup (IF ~h.fin THEN Named("return", <<Tk("return")>>) ELSE {})
+            \cup Named("raise", <<Tk("raise")>>)
 Next ==
   /\ Holes # {} /\ stmts < MaxStmts
   /\ LET i == First  h == toks[i] IN
